@@ -331,6 +331,9 @@ pub struct Pair<T: Cv> {
     pub m: Model,
     /// canonical key of the state: sparse REAL table (from serialize()) + total + truths
     pub key: Vec<u8>,
+    /// hash of the op history; part of the key only while the image is the empty form, which
+    /// says nothing about the in-memory counters
+    pub hist: u64,
 }
 
 pub enum Applied {
@@ -429,13 +432,14 @@ impl<T: Cv> Pair<T> {
     pub fn new(lay: &Layout) -> Result<Self, (String, String)> {
         let s = catch(|| CountMinSketch::<T>::with_seed(lay.hashes, lay.buckets, lay.seed)).map_err(|p| panic_vio("with_seed", &p))?;
         let n = lay.hashes as usize * lay.buckets as usize;
-        Ok(Pair { s, m: Model { table: vec![0; n], total: 0, truth: vec![0; lay.active] }, key: vec![] })
+        Ok(Pair { s, m: Model { table: vec![0; n], total: 0, truth: vec![0; lay.active] }, key: vec![], hist: 0 })
     }
 
     /// Applies one op to the real sketch and to the model, then evaluates the oracle.
     /// `bounds_n`: lower_bound/upper_bound are queried for the first `bounds_n` domain items
     /// (estimate is always queried for the whole domain).
     pub fn apply(&mut self, lay: &Layout, pool: &[Pair<T>], op: &Op, edges: &Edges, bounds_n: usize, first_visit: &dyn Fn(&[u8]) -> bool) -> Applied {
+        self.hist = (self.hist ^ (format!("{op:?}").bytes().fold(0xcbf29ce484222325u64, |h, b| (h ^ b as u64).wrapping_mul(0x100000001b3)))).wrapping_mul(0x9E3779B97F4A7C15).wrapping_add(1);
         let w = lay.buckets as usize;
         let d = lay.hashes as usize;
         match op {
@@ -614,6 +618,9 @@ impl<T: Cv> Pair<T> {
         key.extend_from_slice(&real_total.to_le_bytes());
         for t in &self.m.truth {
             key.extend_from_slice(&t.to_le_bytes());
+        }
+        if empty_img && self.hist != 0 {
+            key.extend_from_slice(&self.hist.to_le_bytes());
         }
         self.key = key;
         if let Some(i) = first {
